@@ -37,6 +37,8 @@ var HandCorpus = []string{
 	"{{ a.b.c['d'][0].e(1, 'x').f }}",
 	"{{ a|default('x')|upper|slice(1, 2) }}",
 	"{{ \"x #{a} y #{b ~ 'c'} z\" }}",
+	"{{ \"#{''}\" ~ 1 }}{{ \"#{\"\"}\" }}{{ \"#{''}#{''}\" + 1 }}{{ \"#{a}\" ? 1 : 2 }}{{ '' ~ \"\" }}{{ ''|f }}{{ {'': ''}[''] }}{{ [''][0] }}",
+	"{% block a %}{% embed 'e' %}{% block b %}{% embed 'f' %}{% block c %}x{% endblock %}{% endembed %}{% endblock %}{% endembed %}{% endblock %}",
 	"{{ [1, [2, 3], {'a': [4]},] }}{{ {'a': 1, b: 2, (c): 3, 4: 5,} }}",
 	"{{ f() }}{{ f(1) }}{{ f(1, g(2, h(3))) }}",
 	"{{ (1 + 2) * (3 - (4 / 5)) }}",
